@@ -403,7 +403,10 @@ def _run_aliases(case, ctx, m):
             raise Violation("alias-rebound", f"an accepted same-target re-declaration changed what {a0}/{names[-1]} resolve to")
         ctx.count("aliases:redeclared-by-definition")
     # derived targets (pointer, array): the same declaration again is the same target, another one is not
-    for decl, other_decl in (("typedef {b} *PT9;", "typedef {o} *PT9;"), ("typedef {b} AT9[3];", "typedef {b} AT9[4];"), ("typedef {b} *PA9[2];", "typedef {b} **PA9[2];"), ("typedef char ST9[];", "typedef wchar ST9[];")):
+    for decl, other_decl in (("typedef {b} *PT9;", "typedef {o} *PT9;"), ("typedef {b} AT9[3];", "typedef {b} AT9[4];"), ("typedef {b} *PA9[2];", "typedef {b} **PA9[2];"), ("typedef char ST9[];", "typedef wchar ST9[];"),
+                             # arrays without a fixed byte size: the count is part of the target all the same
+                             ("typedef {b} DN9[n9];", "typedef {b} DN9[m9];"), ("typedef uleb128 LB9[2];", "typedef uleb128 LB9[3];"), ("typedef {b} MD9[2][k9];", "typedef {b} MD9[3][k9];"),
+                             ("typedef {b} EO9[EOF];", "typedef {b} EO9[];"), ("typedef {b} NT9[];", "typedef {b} NT9[n9];"), ("typedef {b} ZL9[0];", "typedef {b} ZL9[1];"), ("typedef void VD9[2];", "typedef void VD9[3];")):
         bname = base if base != "S" else "S"
         first = lib(cs.load, decl.format(b=bname, o=other) + "\n")
         if isinstance(first, Err):
